@@ -4,4 +4,3 @@ import "verifharness/pkg/hx"
 
 func runWorkerIfRequested() bool { return false }
 func runJSON(o *hx.Opts, res *hx.Result, r *hx.Rand) {}
-func runDates(o *hx.Opts, res *hx.Result, r *hx.Rand) {}
